@@ -1391,6 +1391,12 @@ func (s *sim) execFetch(op Op) {
 			select {
 			case s.n.fetch.FetchedCh <- ph:
 				s.label("fetch-answered")
+				for j, o := range s.fetchOpen {
+					if o.H == fr.H && o.Hash == fr.Hash && o.Ctx == fr.Ctx {
+						s.fetchOpen = append(s.fetchOpen[:j], s.fetchOpen[j+1:]...)
+						break
+					}
+				}
 			default:
 			}
 			synctest.Wait()
